@@ -19,6 +19,11 @@ func TestPropGated(t *testing.T) { hx.Check(t, "gated", GenGated, ExecGated) }
 func TestPropPip(t *testing.T)      { hx.Check(t, "pip-holders", GenPip, ExecPipHolders) }
 func TestPropPipGated(t *testing.T) { hx.Check(t, "pip-gated", GenGated, ExecPipGated) }
 
+// Argument layer (c15cli.go): holders are `pip:run --rlock=… --wlock=…` terminal sessions.
+func TestPropCli(t *testing.T)      { hx.Check(t, "cli-holders", GenCli, ExecCliHolders) }
+func TestPropCliGated(t *testing.T) { hx.Check(t, "cli-gated", GenCliGated, ExecCliGated) }
+func TestPropCliMap(t *testing.T)   { hx.Check(t, "cli-map", GenCliMap, ExecCliMap) }
+
 // TestEnum: every two-holder gated scenario over a 3-resource pool.
 func TestEnum(t *testing.T) {
 	shard, n := hx.Shard()
@@ -31,5 +36,6 @@ func TestReplay(t *testing.T) {
 	hx.Replay(t, map[string]func(json.RawMessage) (hx.Verdict, error){
 		"holders": hx.Exec(Exec), "": hx.Exec(Exec), "gated": hx.Exec(ExecGated),
 		"pip-holders": hx.Exec(ExecPipHolders), "pip-gated": hx.Exec(ExecPipGated),
+		"cli-holders": hx.Exec(ExecCliHolders), "cli-gated": hx.Exec(ExecCliGated), "cli-map": hx.Exec(ExecCliMap),
 	})
 }
